@@ -189,6 +189,17 @@ func init() {
 		_, err := e.RemovePolicies([][]string{{"x"}, {"alice", "d", "read"}})
 		return !a || b, fmt.Sprintf("before=%v after RemovePolicy([]string)=%v; mixed-length RemovePolicies err=%v", a, b, err)
 	}
+	// D25: invalidations were skipped while the cache was disabled
+	witnesses["D25-cache-disabled-invalidation"] = func() (bool, string) {
+		e, _ := casbin.NewCachedEnforcer(mustModel(rbacText))
+		e.AddPolicy("alice", "d", "read")
+		a, _ := e.Enforce("alice", "d", "read")
+		e.EnableCache(false)
+		e.RemovePolicy("alice", "d", "read")
+		e.EnableCache(true)
+		b, _ := e.Enforce("alice", "d", "read")
+		return !a || b, fmt.Sprintf("cached=%v after disable;RemovePolicy;enable=%v", a, b)
+	}
 	// D8: ClearPolicy kept role links
 	witnesses["D8-clearpolicy-links"] = func() (bool, string) {
 		e, _ := casbin.NewEnforcer(mustModel(rbacText))
